@@ -489,6 +489,14 @@ class Inliner:
             tgt_id, val, ret = f"_piece__c{self.counter}", st.value, True
         else:
             return None
+        # list(gen(...)) is [x for x in gen(...)]
+        if isinstance(val, ast.Call) and isinstance(val.func, ast.Name) and val.func.id == "list" and len(val.args) == 1 and not val.keywords \
+                and isinstance(val.args[0], ast.Call) and self._callee(fi, val.args[0], generator=True) is not None:
+            self.counter += 1
+            x_ = f"_item__c{self.counter}"
+            val = ast.copy_location(ast.ListComp(elt=ast.Name(id=x_, ctx=ast.Load()), generators=[ast.comprehension(
+                target=ast.Name(id=x_, ctx=ast.Store()), iter=val.args[0], ifs=[], is_async=0)]), val)
+            ast.fix_missing_locations(val)
         if not (isinstance(val, ast.ListComp) and len(val.generators) == 1 and not val.generators[0].is_async):
             return None
         g = val.generators[0]
@@ -822,8 +830,16 @@ def inline_adjacent_single_use(fn: ast.FunctionDef) -> bool:
     of looking through single-definition locals, for the rules that walk statements"""
     stores: dict = {}
     loads: dict = {}
+    # the variables of a comprehension are its own: occurrences under it of a name it binds are not the function's local
+    skip: set = set()
+    for c in ast.walk(fn):
+        if isinstance(c, (ast.ListComp, ast.SetComp, ast.DictComp, ast.GeneratorExp)):
+            bound = {t.id for g_ in c.generators for t in ast.walk(g_.target) if isinstance(t, ast.Name)}
+            for x in ast.walk(c):
+                if isinstance(x, ast.Name) and x.id in bound:
+                    skip.add(id(x))
     for n in ast.walk(fn):
-        if isinstance(n, ast.Name):
+        if isinstance(n, ast.Name) and id(n) not in skip:
             (stores if isinstance(n.ctx, (ast.Store, ast.Del)) else loads).setdefault(n.id, []).append(n)
     params = {a.arg for a in fn.args.posonlyargs + fn.args.args + fn.args.kwonlyargs}
     changed = False
